@@ -19,6 +19,7 @@ def main(tier, replay=None):
     res.run_parallel([("%s %d %d %d" % (exe, 4 if q else 5, i, n), "quote/parse round trips [shard %d/%d]" % (i, n)) for i in range(n)])
     th = [] if q else ["thorough=1"]
     fams = [dict(scn="c17", name="inject-" + f, opts=["family=" + f] + th, bounds="0,0,0,0", total=0, deadline=1500) for f in ("lists", "fields", "senders", "resent")]
+    fams.append(dict(scn="c17", name="inject-default-host-with-plus", opts=["family=senders", "dplus=1"], bounds="0,0,0,0", total=0))
     fams.append(dict(scn="c17", name="inject-lists-QMAILINJECT-cfi", opts=["family=fields", "qmailinject=cfi"], bounds="0,0,0,0", total=0))
     fams.append(dict(scn="c17", name="inject-control-file-errors", opts=["family=senders"], bounds="0,1,0,0", total=1, deadline=1500))
     # the SMTP side at process level: a recipient whose local part holds a quoted CR, the session arriving in two pieces cut at every byte
